@@ -238,6 +238,13 @@ fn enumerate_mapping(run: u64, mapping: &[u8], st: &mut Stats, vs: &mut Vec<Viol
                     check_one(&cx, &plan, st, vs, &mut nontrivial);
                 }
             }
+            if matches!(cap, Some(4) | None) {
+                // long runs of EINTR (a signal storm): retry budgets exist
+                for burst in [63u16, 64, 65, 128, 256, 1000] {
+                    let plan = SinkPlan { cap, faults: vec![Fault { at: i, kind: FaultKind::Interrupted(burst) }], disk_capacity: None };
+                    check_one(&cx, &plan, st, vs, &mut nontrivial);
+                }
+            }
             if cap.is_none() {
                 // the unchunked sink has one call per section: every error kind at every call
                 for k in ErrK::ALL {
@@ -477,7 +484,7 @@ pub fn main(env: &Env) -> i32 {
         let n_total = n_gen + corpus.len() as u64 + 1 + n_large;
         rep.rule = format!(
             "per mapping ({} seeded-generated with 0..6 classes x 0..8 members, {} small corpus files, 1 hand-written padding case): fault-free control; every chunk cap 1..16; \
-             for caps {{1,3,4,7,inf}} EVERY sink call index x {{short-once, Interrupted x1, Interrupted x3, hard sticky, hard transient, soft transient, Ok(0) once, Ok(0) forever}}; for caps {{3,inf}} also 7 two-fault pairs at adjacent calls (i, i+1) and for cap inf every error kind sticky/transient at every call; \
+             for caps {{1,3,4,7,inf}} EVERY sink call index x {{short-once, Interrupted x1, Interrupted x3, hard sticky, hard transient, soft transient, Ok(0) once, Ok(0) forever}}; for caps {{4,inf}} Interrupted bursts of 63/64/65/128/256/1000 at every call; for caps {{3,inf}} also 7 two-fault pairs at adjacent calls (i, i+1) and for cap inf every error kind sticky/transient at every call; \
              disk-full at EVERY capacity 0..len for caps {{inf,1,5}}. Exhaustive for each mapping over that single-fault space. \
              Plus 32 large-section mappings (wide classes of 70..150 methods, or 150..260 classes): every chunk cap 1..16 fault-free and 160 seeded multi-fault plans each. \
              distinct_nontrivial = executions (distinct by construction per distinct mapping) in which a fault fired or the cap truncated a call.",
